@@ -1,17 +1,253 @@
-(** C06 — Canonical order.  STATUS: [_partial].  Proved: the (count, reinverted) key
-    comparison used for the heap and for sorting neighbours is a strict total order, so the
-    sorted results are unique.  The order of the enumeration itself is decided by the
-    correspondence in this revision. *)
-From Coq Require Import ZArith List Bool.
-From Concepts Require Import Base.Res Base.PyInt Base.BitSet Spec.FCA Spec.Context
+(** C06 — Canonical order.
+
+    "iterating the lattice visits concepts in short-lexicographic order of their extents (fewer
+    objects first, ties by object position), concept.index is its position and concept.dindex
+    its position in long-lexicographic order (more objects first); infimum is the first and least
+    concept, supremum the last and greatest, atoms the upper covers of the infimum.  Every
+    upper_neighbors tuple is in shortlex order and every lower_neighbors tuple in longlex order."
+
+    END-TO-END: [L] is the value returned by the model of [Context.lattice] ([build_lattice],
+    satisfiable by [C03_terminates]); [concept_at L i x] says [x] is the i-th concept visited.
+    The order is the one the code uses, the tuple key [shortlex n s = (count s, reinverted n s)]
+    resp. [longlex n s = (- count s, reinverted n s)] compared as Python tuples ([key_lt]);
+    [C06_shortlex_meaning] / [C06_longlex_meaning] say what these keys MEAN: fewer (resp. more)
+    members first, and among equally many, the set owning the first position where they differ
+    comes first ([lexlt]). *)
+From Coq Require Import ZArith List Bool Sorted.
+From Concepts Require Import Base.Res Base.PyInt Base.BitSet Spec.FCA Spec.Context Spec.LatticeSpec
   Model.Matrices Model.ContextApi Model.Members Model.Lattice Model.LatticeApi
-  Proofs.Matrices Proofs.ContextApi Proofs.Closure Proofs.LatticeBasics Proofs.LatticeFirst.
+  Proofs.Matrices Proofs.ContextApi Proofs.Closure Proofs.LatticeBasics Proofs.LatticeFirst
+  Proofs.Keys Proofs.BuildLattice Proofs.LatticeQueries Proofs.LatticeLabels Proofs.Assemble.
 Import ListNotations.
 Open Scope Z_scope.
 
-Theorem C06_key_irrefl_partial : forall k, key_ltb k k = false.
+(** * the keys and their meaning *)
+
+Theorem C06_shortlex_meaning : forall r a b, in_range r a -> in_range r b ->
+  (key_ltb (shortlex r a) (shortlex r b) = true <->
+   (count a < count b)%nat \/ (count a = count b /\ lexlt a b)).
+Proof. exact shortlex_meaning. Qed.
+
+Theorem C06_longlex_meaning : forall r a b, in_range r a -> in_range r b ->
+  (key_ltb (longlex r a) (longlex r b) = true <->
+   (count b < count a)%nat \/ (count a = count b /\ lexlt a b)).
+Proof. exact longlex_meaning. Qed.
+
+(** [count] is the number of members *)
+Theorem C06_count_is_cardinal : forall n s, in_range n s -> count s = length (members n s).
+Proof. exact count_members. Qed.
+
+(** the key comparison is a strict total order, so "sorted" determines the sequence *)
+Theorem C06_key_irrefl : forall k, key_ltb k k = false.
 Proof. exact key_ltb_irrefl. Qed.
-Theorem C06_key_trans_partial : forall a b d, key_ltb a b = true -> key_ltb b d = true -> key_ltb a d = true.
+Theorem C06_key_trans : forall a b d, key_ltb a b = true -> key_ltb b d = true -> key_ltb a d = true.
 Proof. exact key_ltb_trans. Qed.
-Theorem C06_key_total_partial : forall a b, key_ltb a b = true \/ a = b \/ key_ltb b a = true.
+Theorem C06_key_total : forall a b, key_ltb a b = true \/ a = b \/ key_ltb b a = true.
 Proof. exact key_ltb_total. Qed.
+Theorem C06_shortlex_injective : forall r a b, in_range r a -> in_range r b -> shortlex r a = shortlex r b -> a = b.
+Proof. exact shortlex_inj. Qed.
+Theorem C06_longlex_injective : forall r a b, in_range r a -> in_range r b -> longlex r a = longlex r b -> a = b.
+Proof. exact longlex_inj. Qed.
+
+(** * iteration order *)
+
+Theorem C06_iteration_sorted : forall fuel dfuel c L,
+  wf_ctx c -> (Nat.max (nG c) (nM c) <= dfuel)%nat -> build_lattice fuel dfuel (relation_new c) = Ok L ->
+  StronglySorted (fun a b => key_lt (shortlex (nG c) a) (shortlex (nG c) b)) (map c_extent (l_concepts L)).
+Proof.
+  intros fuel dfuel c L Hwf Hd HB.
+  exact (iteration_sorted c L (build_lattice_ok fuel dfuel c L Hwf Hd HB)).
+Qed.
+
+(** position order = shortlex key order of the extents *)
+Theorem C06_position_order : forall fuel dfuel c L i x j y,
+  wf_ctx c -> (Nat.max (nG c) (nM c) <= dfuel)%nat -> build_lattice fuel dfuel (relation_new c) = Ok L ->
+  concept_at L i x -> concept_at L j y ->
+  ((i < j)%nat <-> key_lt (shortlex (nG c) (c_extent x)) (shortlex (nG c) (c_extent y))).
+Proof.
+  intros fuel dfuel c L i x j y Hwf Hd HB.
+  exact (position_lt_iff c L (build_lattice_ok fuel dfuel c L Hwf Hd HB) i x j y).
+Qed.
+
+(** ... i.e. fewer objects first, ties by object position *)
+Theorem C06_iteration_order_meaning : forall fuel dfuel c L i x j y,
+  wf_ctx c -> (Nat.max (nG c) (nM c) <= dfuel)%nat -> build_lattice fuel dfuel (relation_new c) = Ok L ->
+  concept_at L i x -> concept_at L j y ->
+  ((i < j)%nat <->
+   (count (c_extent x) < count (c_extent y))%nat \/
+   (count (c_extent x) = count (c_extent y) /\ lexlt (c_extent x) (c_extent y))).
+Proof.
+  intros fuel dfuel c L i x j y Hwf Hd HB.
+  exact (position_order_meaning c L (build_lattice_ok fuel dfuel c L Hwf Hd HB) i x j y).
+Qed.
+
+(** the order of iteration is a linear extension of the concept order *)
+Theorem C06_order_extends_inclusion : forall fuel dfuel c L i x j y,
+  wf_ctx c -> (Nat.max (nG c) (nM c) <= dfuel)%nat -> build_lattice fuel dfuel (relation_new c) = Ok L ->
+  concept_at L i x -> concept_at L j y -> psubset (c_extent x) (c_extent y) -> (i < j)%nat.
+Proof.
+  intros fuel dfuel c L i x j y Hwf Hd HB.
+  exact (order_extends_inclusion c L (build_lattice_ok fuel dfuel c L Hwf Hd HB) i x j y).
+Qed.
+
+(** * concept.index, concept.dindex *)
+
+Theorem C06_index_is_position : forall fuel dfuel c L i x,
+  wf_ctx c -> (Nat.max (nG c) (nM c) <= dfuel)%nat -> build_lattice fuel dfuel (relation_new c) = Ok L ->
+  concept_at L i x -> c_index x = i.
+Proof.
+  intros fuel dfuel c L i x Hwf Hd HB.
+  exact (index_is_position c L (build_lattice_ok fuel dfuel c L Hwf Hd HB) i x).
+Qed.
+
+(** dindex is a position (below the length, no two members share one) and dindex order =
+    longlex key order of the extents: dindex is the rank in longlex order *)
+Theorem C06_dindex_range : forall fuel dfuel c L i x,
+  wf_ctx c -> (Nat.max (nG c) (nM c) <= dfuel)%nat -> build_lattice fuel dfuel (relation_new c) = Ok L ->
+  concept_at L i x -> (c_dindex x < length (l_concepts L))%nat.
+Proof.
+  intros fuel dfuel c L i x Hwf Hd HB.
+  exact (ok_dindex_range c L (build_lattice_ok fuel dfuel c L Hwf Hd HB) i x).
+Qed.
+
+Theorem C06_dindex_injective : forall fuel dfuel c L i x j y,
+  wf_ctx c -> (Nat.max (nG c) (nM c) <= dfuel)%nat -> build_lattice fuel dfuel (relation_new c) = Ok L ->
+  concept_at L i x -> concept_at L j y -> c_dindex x = c_dindex y -> i = j.
+Proof.
+  intros fuel dfuel c L i x j y Hwf Hd HB.
+  exact (dindex_injective c L (build_lattice_ok fuel dfuel c L Hwf Hd HB) i x j y).
+Qed.
+
+Theorem C06_dindex_order : forall fuel dfuel c L i x j y,
+  wf_ctx c -> (Nat.max (nG c) (nM c) <= dfuel)%nat -> build_lattice fuel dfuel (relation_new c) = Ok L ->
+  concept_at L i x -> concept_at L j y ->
+  ((c_dindex x < c_dindex y)%nat <-> key_lt (longlex (nG c) (c_extent x)) (longlex (nG c) (c_extent y))).
+Proof.
+  intros fuel dfuel c L i x j y Hwf Hd HB.
+  exact (ok_dindex c L (build_lattice_ok fuel dfuel c L Hwf Hd HB) i x j y).
+Qed.
+
+(** ... i.e. more objects first, ties by object position *)
+Theorem C06_dindex_order_meaning : forall fuel dfuel c L i x j y,
+  wf_ctx c -> (Nat.max (nG c) (nM c) <= dfuel)%nat -> build_lattice fuel dfuel (relation_new c) = Ok L ->
+  concept_at L i x -> concept_at L j y ->
+  ((c_dindex x < c_dindex y)%nat <->
+   (count (c_extent y) < count (c_extent x))%nat \/
+   (count (c_extent x) = count (c_extent y) /\ lexlt (c_extent x) (c_extent y))).
+Proof.
+  intros fuel dfuel c L i x j y Hwf Hd HB.
+  exact (dindex_order_meaning c L (build_lattice_ok fuel dfuel c L Hwf Hd HB) i x j y).
+Qed.
+
+(** * infimum: first and least; supremum: last and greatest *)
+
+Theorem C06_infimum_first : forall fuel dfuel c L,
+  wf_ctx c -> (Nat.max (nG c) (nM c) <= dfuel)%nat -> build_lattice fuel dfuel (relation_new c) = Ok L ->
+  exists x, concept_at L 0 x /\ c_extent x = clO c 0 /\ c_intent x = upO c 0.
+Proof.
+  intros fuel dfuel c L Hwf Hd HB.
+  exact (LatticeQueries.infimum_first c L dfuel (build_lattice_ok fuel dfuel c L Hwf Hd HB) Hd).
+Qed.
+
+Theorem C06_infimum_least : forall fuel dfuel c L x0 i x,
+  wf_ctx c -> (Nat.max (nG c) (nM c) <= dfuel)%nat -> build_lattice fuel dfuel (relation_new c) = Ok L ->
+  concept_at L 0 x0 -> concept_at L i x -> subset (c_extent x0) (c_extent x).
+Proof.
+  intros fuel dfuel c L x0 i x Hwf Hd HB.
+  exact (infimum_least c L dfuel (build_lattice_ok fuel dfuel c L Hwf Hd HB) Hd x0 i x).
+Qed.
+
+Theorem C06_supremum_last : forall fuel dfuel c L,
+  wf_ctx c -> (Nat.max (nG c) (nM c) <= dfuel)%nat -> build_lattice fuel dfuel (relation_new c) = Ok L ->
+  exists x, concept_at L (length (l_concepts L) - 1) x
+    /\ c_extent x = ones (nG c) /\ c_intent x = upO c (ones (nG c)).
+Proof.
+  intros fuel dfuel c L Hwf Hd HB.
+  exact (supremum_last c L dfuel (build_lattice_ok fuel dfuel c L Hwf Hd HB) Hd).
+Qed.
+
+Theorem C06_supremum_greatest : forall fuel dfuel c L x1 i x,
+  wf_ctx c -> (Nat.max (nG c) (nM c) <= dfuel)%nat -> build_lattice fuel dfuel (relation_new c) = Ok L ->
+  concept_at L (length (l_concepts L) - 1) x1 -> concept_at L i x -> subset (c_extent x) (c_extent x1).
+Proof.
+  intros fuel dfuel c L x1 i x Hwf Hd HB.
+  exact (supremum_greatest c L dfuel (build_lattice_ok fuel dfuel c L Hwf Hd HB) Hd x1 i x).
+Qed.
+
+(** * atoms: lattice.atoms is the upper_neighbors tuple of the infimum, i.e. exactly the
+      concepts covering the infimum *)
+
+Theorem C06_atoms_are_covers_of_infimum : forall fuel dfuel c L x0 a,
+  wf_ctx c -> (Nat.max (nG c) (nM c) <= dfuel)%nat -> build_lattice fuel dfuel (relation_new c) = Ok L ->
+  concept_at L 0 x0 ->
+  (In a (c_upper x0) <-> exists y, concept_at L a y /\ covers c (clO c 0) (c_extent y)).
+Proof.
+  intros fuel dfuel c L x0 a Hwf Hd HB.
+  exact (atoms_are_covers_of_infimum c L (build_lattice_ok fuel dfuel c L Hwf Hd HB) x0 a).
+Qed.
+
+(** * neighbour tuples are sorted: upper by the shortlex key, lower by the longlex key of the
+      neighbours' extents ([nth_extent (l_exts L) a] is the extent of the member at position a) *)
+
+Theorem C06_upper_neighbors_sorted : forall fuel dfuel c L i x,
+  wf_ctx c -> (Nat.max (nG c) (nM c) <= dfuel)%nat -> build_lattice fuel dfuel (relation_new c) = Ok L ->
+  concept_at L i x ->
+  StronglySorted (fun a b => key_lt (shortlex (nG c) (nth_extent (l_exts L) a))
+                                    (shortlex (nG c) (nth_extent (l_exts L) b))) (c_upper x).
+Proof.
+  intros fuel dfuel c L i x Hwf Hd HB.
+  exact (ok_upper_sorted c L (build_lattice_ok fuel dfuel c L Hwf Hd HB) i x).
+Qed.
+
+Theorem C06_lower_neighbors_sorted : forall fuel dfuel c L i x,
+  wf_ctx c -> (Nat.max (nG c) (nM c) <= dfuel)%nat -> build_lattice fuel dfuel (relation_new c) = Ok L ->
+  concept_at L i x ->
+  StronglySorted (fun a b => key_lt (longlex (nG c) (nth_extent (l_exts L) a))
+                                    (longlex (nG c) (nth_extent (l_exts L) b))) (c_lower x).
+Proof.
+  intros fuel dfuel c L i x Hwf Hd HB.
+  exact (ok_lower_sorted c L (build_lattice_ok fuel dfuel c L Hwf Hd HB) i x).
+Qed.
+
+Theorem C06_member_extent : forall fuel dfuel c L i x,
+  wf_ctx c -> (Nat.max (nG c) (nM c) <= dfuel)%nat -> build_lattice fuel dfuel (relation_new c) = Ok L ->
+  concept_at L i x -> nth_extent (l_exts L) i = c_extent x.
+Proof.
+  intros fuel dfuel c L i x Hwf Hd HB.
+  exact (concept_at_nth_extent c L (build_lattice_ok fuel dfuel c L Hwf Hd HB) i x).
+Qed.
+
+(** equivalently: upper neighbours by increasing index, lower neighbours by increasing dindex *)
+Theorem C06_upper_neighbors_by_index : forall fuel dfuel c L i x,
+  wf_ctx c -> (Nat.max (nG c) (nM c) <= dfuel)%nat -> build_lattice fuel dfuel (relation_new c) = Ok L ->
+  concept_at L i x -> StronglySorted lt (c_upper x).
+Proof.
+  intros fuel dfuel c L i x Hwf Hd HB.
+  exact (upper_sorted_by_index c L (build_lattice_ok fuel dfuel c L Hwf Hd HB) i x).
+Qed.
+
+Theorem C06_lower_neighbors_by_dindex : forall fuel dfuel c L i x,
+  wf_ctx c -> (Nat.max (nG c) (nM c) <= dfuel)%nat -> build_lattice fuel dfuel (relation_new c) = Ok L ->
+  concept_at L i x ->
+  StronglySorted (fun a b => (c_dindex (get_concept L a) < c_dindex (get_concept L b))%nat) (c_lower x).
+Proof.
+  intros fuel dfuel c L i x Hwf Hd HB.
+  exact (lower_sorted_by_dindex c L (build_lattice_ok fuel dfuel c L Hwf Hd HB) i x).
+Qed.
+
+(** * witness: rows {0,1}, {1,2}, {2,3}, {0,1,2}.  Extents in iteration order with
+      (index, dindex); note members 3 and 4 ({0,3} before {1,3}) and the lower neighbours [4; 1]
+      of member 6 (the larger extent {1,3} before {2}). *)
+Example C06_witness :
+  let c := mkCtx 4 4 [3; 6; 12; 7] in
+  wf_ctx c /\ (Nat.max (nG c) (nM c) <= 4)%nat /\
+  exists L, build_lattice 20 4 (relation_new c) = Ok L /\
+    (map c_extent (l_concepts L),
+     map (fun x => (c_index x, c_dindex x, c_upper x, c_lower x)) (l_concepts L))
+    = ([0; 4; 8; 9; 10; 11; 14; 15],
+       [(0, 7, [1; 2], []); (1, 5, [6], [0]); (2, 6, [3; 4], [0]); (3, 3, [5], [2]);
+        (4, 4, [5; 6], [2]); (5, 1, [7], [3; 4]); (6, 2, [7], [4; 1]); (7, 0, [], [5; 6])]%nat).
+Proof.
+  cbv zeta. split; [apply wf_ctxb_sound; vm_compute; reflexivity|]. split; [apply le_by_leb; vm_compute; reflexivity|].
+  apply witness_intro. vm_compute. reflexivity.
+Qed.
